@@ -647,6 +647,24 @@ class ScaleDriver2:
             e["exc"] = type(ex).__name__
         self.events.append(e)
 
+    def refused_grid(self, k):
+        """transform_1d_grid with a rule on (-1, 1): these half-line transformations refuse it.  Logged as "Refused"
+        when the library raises; as an ordinary Call if it should ever accept such a grid."""
+        from grid.basegrid import OneDGrid
+        x = np.array([-0.5, 0.25, 0.75])
+        e = {"ev": "Refused", "k": k + 1, "op": "transform_1d_grid[domain outside]", "cls": self.specs[k][0], "wrap": bool(self.specs[k][2]),
+             "dtype": "float64", "xmax": 1, "maxlast": True, "bpre": self._ball(), "bpost": [0, 0], "pure": True, "dep": False, "exc": ""}
+        try:
+            with warnings.catch_warnings():
+                warnings.simplefilter("ignore")
+                self.tfs[k].transform_1d_grid(OneDGrid(x, np.ones(3), (-1, 1)))
+        except Exception as ex:
+            e["exc"] = type(ex).__name__
+        e["bpost"] = self._ball()
+        if e["exc"] == "":
+            return          # accepted: not this clause's subject (C04 / X01 judge the domain check itself)
+        self.events.append(e)
+
     def scribble(self, k):
         if self.last_x[k] is None:
             return
@@ -674,6 +692,10 @@ def _scale2_traces(rng, nprng, n):
             u = rng.random()
             if u < 0.2 and lastk is not None:
                 d.scribble(lastk)
+                lastk = None
+                continue
+            if t % 5 == 1 and 0.6 < u <= 0.8 and not d.specs[k][2]:
+                d.refused_grid(k)           # a minority of the traces: a grid whose domain the transformation refuses
                 lastk = None
                 continue
             if zero_trace and u > 0.8 and not d.specs[k][2]:
